@@ -143,15 +143,30 @@ FLAG_SETS = [[], [], [], ["--claude"], ["--gemini"], ["--cursor"], ["--cursor", 
 ENV_VALUES = [None, None, None, "1", "true", "yes", "YES", "0", "", "garbage", "True"]
 
 
+UNREADABLE = "<symlink to /proc/self/mem>"
+
+
+def make_unreadable_user_config(home):
+    p = os.path.join(home, ".dippy", "config")
+    os.makedirs(os.path.dirname(p), exist_ok=True)
+    if os.path.lexists(p):
+        os.unlink(p)
+    os.symlink("/proc/self/mem", p)
+
+
 class World:
     """scratch HOME/project + in-process oracle for one batch"""
 
-    def __init__(self):
+    def __init__(self, project_config=None):
         self.s = H.Scratch()
         self.s.user_config(USER_CONFIG)
         self.proj = os.path.join(self.s.root, "proj")
         os.makedirs(os.path.join(self.proj, "sub"))
         self.s.write("proj/.dippy", PROJECT_CONFIG)
+        if project_config == UNREADABLE:
+            # the user configuration is a file whose read fails with EIO (works for root too):
+            # load_config raises ConfigError whatever the cwd
+            make_unreadable_user_config(self.s.home)
         self.cache_load = {}
 
     def close(self):
